@@ -38,8 +38,7 @@ def build_scripts(ctx, scale):
             elif k in ('E', 'A'):
                 for p in [IDENT, T2REP] + [pool.pick(ctx.rng) for _ in range(6 * scale)]: lines.append('%s %s' % (op, arg(k, p)))
             elif k in ('X', 'Y'):
-                for n in (0, 1, 2, 3, 5):
-                    l = [pool.pick(ctx.rng) for _ in range(n)]
+                for l in [[pool.pick(ctx.rng) for _ in range(n)] for n in (0, 1, 2, 3, 5)] + pool.batches(ctx.rng):
                     lines.append('%s %s' % (op, ';'.join(arg('E' if k == 'X' else 'A', c) for c in l) if l else '-'))
         scripts[b] = lines
     return scripts
